@@ -5,7 +5,7 @@ from lib.checkdef import default_replay_cmd, run_property
 def run(tier, seed):
     return run_property(
         "C07", tier, seed, level="other",
-        deductive=[("c07_clear", None), ("c14_seed", r"clear_graph_last|collect_first|ones|fresh_owner"), ("c01_topo", r"C07\.null|receiver_grads_none|new_members|grads_only_nulled"), ("c_op", r"^C07\.null"), ("c13_inplace", r"^C07\.inplace"), ("c04_shape", r"^C07\.shape")],
+        deductive=[("c07_clear", None), ("c14_seed", r"clear_graph_last|collect_first|ones|fresh_owner"), ("c01_topo", r"C07\.null|receiver_grads_none|new_members|grads_only_nulled"), ("c_op", r"^C07\.null|^C04\.base\.(stale_base_link_dropped|result_base).*p0=stale_view"), ("c13_inplace", r"^C07\.inplace"), ("c04_shape", r"^C07\.shape")],
         bounded=[("graph_bounded.py", ["--check", "C07"])],
         trusted=["CPython frees an object when its last strong reference disappears and no cycle holds it", "pyvc heap model"],
         assumptions=[
